@@ -57,7 +57,7 @@ def main():
         j = int(args[1])
         args = args[2:]
     pre = args[0] if args else ''
-    ids = sorted(x for x in os.listdir(os.path.join(VERIF, 'seeded')) if x.startswith(pre) and os.path.isdir(os.path.join(VERIF, 'seeded', x)))
+    ids = sorted(x for x in os.listdir(os.path.join(VERIF, 'seeded')) if x.startswith(pre) and os.path.exists(os.path.join(VERIF, 'seeded', x, 'meta.json')))
     n = {'caught': 0, 'MISSED': 0, 'stale': 0, 'obsolete': 0, 'unreported': 0}
     with ThreadPoolExecutor(max_workers=j) as ex:
         for sid, verdict, res in ex.map(one, ids):
